@@ -209,8 +209,29 @@ func checkC10(c *Ctx) {
 							}
 						}
 					}
-					if isBoolMap && vName != "" && vName != "_" && bareOK(ifs.Cond, okName, vName) {
-						return false
+					if isBoolMap && vName != "" && vName != "_" {
+						// truth table of the guard: an entry that is present with value false (omitted / not
+						// permitted) never enables the emission; a missing entry under a restricting Select
+						// enables it only through an explicit extra trait
+						bf := boolTable(info, ifs.Cond)
+						if bf.has(okName) && bf.has(vName) {
+							if okf, _ := bf.forAll(map[string]bool{okName: true, vName: false}, false); !okf {
+								return false
+							}
+						} else if bareOK(ifs.Cond, okName, vName) {
+							return false
+						}
+						if bf.has("restricted") {
+							fixed := map[string]bool{okName: false, "restricted": true}
+							for _, a := range bf.atoms {
+								if a != okName && a != vName && a != "restricted" {
+									fixed[a] = false
+								}
+							}
+							if okf, _ := bf.forAll(fixed, false); !okf {
+								return false
+							}
+						}
 					}
 					return true
 				}
@@ -450,6 +471,109 @@ func checkC10(c *Ctx) {
 				return ok && (fieldSel(info, e, selF) || fieldSel(info, e, omF))
 			})
 			rp.Check(!back, sf.Name(), "permission override after Select/Omit processing", st.Pos(), "tags win over Select", "the Select/Omit lists are processed after the permission override: Select(\"field\") re-enables a field whose tag forbids the write")
+		}
+	}
+
+	// ---- C10.tags ----
+	// permission tags are parsed into Creatable/Updatable/Readable: every permission combination the tag
+	// language can express must be producible by some path of its parsing block (path enumeration over the
+	// block; last constant store per flag), and read-only / ignored fields never stay writable
+	rtg := c.Rule("C10.tags", "ParseField: the `<-`, `->` and `-` tag blocks can produce every documented permission outcome", 3)
+	{
+		pfm := p.MethodDecl(pkgSchema, "Schema", "ParseField")
+		c.Touch(pfm)
+		info := pfm.Pkg.TypesInfo
+		fieldT := p.Named(pkgSchema, "Field")
+		flagVars := map[*types.Var]string{p.Field(fieldT, "Creatable"): "C", p.Field(fieldT, "Updatable"): "U", p.Field(fieldT, "Readable"): "R"}
+		tagF := p.Field(fieldT, "TagSettings")
+		outcomes := func(ifs *ast.IfStmt) map[string]bool {
+			sub := &FuncSrc{Pkg: pfm.Pkg, Body: &ast.BlockStmt{Lbrace: ifs.Pos(), List: []ast.Stmt{ifs}, Rbrace: ifs.End()}, Type: pfm.Type, name: pfm.Name() + "#tagblock"}
+			paths, ok := p.EnumPaths(sub, nil, 4096)
+			out := map[string]bool{}
+			if !ok {
+				return out
+			}
+			for _, pr := range paths {
+				st := map[string]string{"C": "-", "U": "-", "R": "-"}
+				for _, n := range pr.Nodes {
+					as, ok := n.(*ast.AssignStmt)
+					if !ok || len(as.Lhs) != 1 || len(as.Rhs) != 1 {
+						continue
+					}
+					sel, ok := unparen(as.Lhs[0]).(*ast.SelectorExpr)
+					if !ok {
+						continue
+					}
+					if sl := info.Selections[sel]; sl != nil {
+						if k, ok := flagVars[asVar(sl.Obj())]; ok {
+							if b, isC := constBool(info, as.Rhs[0]); isC {
+								st[k] = map[bool]string{true: "T", false: "F"}[b]
+							}
+						}
+					}
+				}
+				if k := "C" + st["C"] + "U" + st["U"] + "R" + st["R"]; k != "C-U-R-" { // the tag-absent path stores nothing
+					out[k] = true
+				}
+			}
+			return out
+		}
+		found := map[string]bool{}
+		ast.Inspect(pfm.Body, func(n ast.Node) bool {
+			ifs, ok := n.(*ast.IfStmt)
+			if !ok {
+				return true
+			}
+			as, ok := ifs.Init.(*ast.AssignStmt)
+			if !ok || len(as.Rhs) != 1 {
+				return true
+			}
+			ix, ok := unparen(as.Rhs[0]).(*ast.IndexExpr)
+			if !ok || !fieldSel(info, ix.X, tagF) {
+				return true
+			}
+			key, ok := constString(info, ix.Index)
+			if !ok {
+				return true
+			}
+			oc := outcomes(ifs)
+			var list []string
+			for k := range oc {
+				list = append(list, k)
+			}
+			sortStrings(list)
+			has := func(c, u string) bool {
+				for k := range oc {
+					if strings.HasPrefix(k, "C"+c+"U"+u) {
+						return true
+					}
+				}
+				return false
+			}
+			switch key {
+			case "<-":
+				found[key] = true
+				okAll := has("T", "T") && has("T", "F") && has("F", "T") && has("F", "F")
+				rtg.Check(okAll, pfm.Name(), "write-permission tag `<-`", ifs.Pos(), "create+update, create only, update only and neither are all producible", "the `<-` tag block cannot produce all of {create+update, create-only, update-only, no write permission}: some tag value (e.g. `<-:false`, `<-:create`) leaves a field writable that the tag forbids (outcomes: "+strings.Join(list, ",")+")")
+			case "->":
+				found[key] = true
+				okRO := true
+				for k := range oc {
+					if !strings.HasPrefix(k, "CFUF") {
+						okRO = false
+					}
+				}
+				rtg.Check(okRO && len(oc) >= 2, pfm.Name(), "read-only tag `->`", ifs.Pos(), "never writable; readable or not", "a field tagged `->` can stay creatable/updatable on some path, or its readability cannot be switched off (outcomes: "+strings.Join(list, ",")+")")
+			case "-":
+				found[key] = true
+				rtg.Check(oc["CFUFRF"], pfm.Name(), "ignore tag `-`", ifs.Pos(), "ignored fields lose all permissions", "the `-` tag block has no path that clears create, update and read permission (outcomes: "+strings.Join(list, ",")+")")
+			}
+			return true
+		})
+		for _, k := range []string{"<-", "->", "-"} {
+			if !found[k] {
+				rtg.Bad(pfm.Name(), "tag block "+k, pfm.Body.Pos(), "ParseField no longer has a block parsing the `"+k+"` permission tag")
+			}
 		}
 	}
 
